@@ -950,7 +950,17 @@ def rule_beatguard(ctx):
         yield ob(R, f, "%s:zero-exit-tests-both-sides" % q, {"R", "E"} <= sides, "the degenerate-input exit tests the size of both the reference and the estimated beats" if {"R", "E"} <= sides else "the degenerate-input exit only tests the %s side: a valid empty or single-beat annotation on the other side reaches the scoring code" % ("reference" if sides == {"R"} else "estimated"))
 
 
+C14_FILES = ("beat.py", "onset.py", "segment.py", "chord.py", "melody.py", "multipitch.py", "transcription.py", "transcription_velocity.py", "tempo.py", "key.py", "pattern.py", "hierarchy.py", "alignment.py", "util.py")
+
+
+def rule_extnames(ctx):
+    """a valid input must not fail with an unrelated exception: every external dotted name evaluated on the way
+    (including the classes named in `except` clauses) exists in the installed libraries"""
+    yield from common.rule_extnames(ctx, "C14.EXTNAMES", C14_FILES)
+
+
 RULES = [
+    ("C14.EXTNAMES", 100, rule_extnames),
     ("C14.BEATGUARD", 6, rule_beatguard),
     ("C14.GRAMMAR", 3, common.shared("c10", "rule_grammar", "C14.GRAMMAR")),
     ("C14.NANRANGE", 3, rule_nanrange),
